@@ -27,6 +27,9 @@ for d in sorted(glob.glob(os.path.join(HERE, "seeded", "C*-m*")), key=key):
     except Exception:
         continue
     det = m.get("detected_by") or []
+    if isinstance(det, str):        # first-generation meta files (C01/C02): free text
+        det = [det]
+        m["detection"] = {det[0]: ["VIOLATION property=%s replay=replays/%s_%s.json" % (det[0], det[0], re.split(r"[ :(]", str(m.get("detection", "")))[0])]}
     lines = [l for p in det for l in m.get("detection", {}).get(p, []) if l.startswith("VIOLATION")]
     concrete = [l for l in lines if "no-failing-input-found" not in l]
     names = sorted({re.sub(r"^replays/C\d+_", "", l.split("replay=")[1].split()[0]).replace(".json", "") for l in (concrete or lines)})
